@@ -82,7 +82,15 @@ pub fn eval_node<F: FnMut(&GraphColoredVertices, &str)>(
                 .clone();
 
             // if we already visited all of the duplicates, lets delete the cached value
-            if eval_context.duplicates[&canonized_formula_with_domains] == 0 {
+            // (except for the user-provided sets of wild-card propositions: they cannot be recomputed,
+            // and they can be requested more times than counted if some duplicate sub-tree containing
+            // them has to be evaluated repeatedly)
+            if eval_context.duplicates[&canonized_formula_with_domains] == 0
+                && !matches!(
+                    node.node_type,
+                    NodeType::Terminal(Atomic::WildCardProp(_))
+                )
+            {
                 eval_context
                     .duplicates
                     .remove(&canonized_formula_with_domains);
@@ -101,7 +109,12 @@ pub fn eval_node<F: FnMut(&GraphColoredVertices, &str)>(
             return result;
         } else {
             // if the cache does not contain result for this subformula, set insert flag
-            save_to_cache = true;
+            // (unless we are inside the scope of some other variable with a restricted domain - a result
+            // computed there is restricted as well, and cannot be reused outside of that scope)
+            save_to_cache = !eval_context
+                .free_var_domains
+                .iter()
+                .any(|(var, domain)| domain.is_some() && !renaming.contains_key(var));
         }
     }
 
